@@ -22,5 +22,5 @@ package openapi3gen
 //@   modifies *
 //@   modifies wlocked, rlocked
 //@   ensures unchanged(wlocked, rlocked)
-//@   option safety-tags C10
+//@   option safety-tags none
 //@   tag C15
